@@ -45,6 +45,9 @@ var c36Kinds = []c36Kind{
 	{"shebang", "", "#!/bin/sh\nfoo(){ echo   shebang; }", true},
 	// no extension and no shebang: only formatted when named explicitly
 	{"noext", "", "echo   plain\n", false},
+	// bash-only syntax under a .sh name: unformatted under the default
+	// language (bash), a parse error under posix and mksh
+	{"bashism", ".sh", "echo ${a^^}   $[1+2]\n(( a ))\n", true},
 }
 
 // ---- flags and their EditorConfig equivalents -----------------------------
@@ -323,6 +326,49 @@ type c36Case struct {
 	Flags []string  `json:"flags"`
 	// Walk: the directories are the arguments; otherwise every file is named.
 	Walk bool `json:"walk,omitempty"`
+	// Phase "hetero": a tree whose directories a and b have DIFFERENT settings,
+	// Flags for a and FlagsB for b, given as EditorConfig only; Layout
+	// "sections": one root .editorconfig with sections [a/**] and [b/**];
+	// "nested": a/.editorconfig and b/.editorconfig with a [*] section each.
+	FlagsB []string `json:"flags_b,omitempty"`
+	Layout string   `json:"layout,omitempty"`
+	// Phase "shebang": one file "f<Ext>" = shebang line + body, see c36_shebang.go
+	Spell *c36Spell `json:"spell,omitempty"`
+	Ext   string    `json:"ext,omitempty"`
+	Body  int       `json:"body,omitempty"`
+}
+
+func (t c36Case) hetero() bool { return t.Phase == "hetero" }
+
+// setOf is the flag set in force for a file of the tree.
+func (t c36Case) setOf(f c36File) []string {
+	if t.hetero() && f.Dir == "b" {
+		return t.FlagsB
+	}
+	return t.Flags
+}
+
+func c36ECBody(set []string) string {
+	s := ""
+	for _, f := range set {
+		s += c36Flags[f].EC
+	}
+	return s
+}
+
+// editorConfigs lists the .editorconfig files of a hetero tree (path -> text).
+func (t c36Case) editorConfigs() map[string]string {
+	switch t.Layout {
+	case "sections":
+		return map[string]string{".editorconfig": "root = true\n\n[a/**]\n" + c36ECBody(t.Flags) + "\n[b/**]\n" + c36ECBody(t.FlagsB)}
+	case "nested":
+		return map[string]string{
+			".editorconfig":   "root = true\n",
+			"a/.editorconfig": "[*]\n" + c36ECBody(t.Flags),
+			"b/.editorconfig": "[*]\n" + c36ECBody(t.FlagsB),
+		}
+	}
+	panic("bad layout " + t.Layout)
 }
 
 func (t c36Case) paths() []string {
@@ -337,6 +383,9 @@ func (t c36Case) key() string {
 	if t.Phase == "single" {
 		return fmt.Sprintf("single %s [%s]", c36Kinds[t.Kind].Name, strings.Join(t.Flags, " "))
 	}
+	if t.Phase == "shebang" {
+		return fmt.Sprintf("shebang %q f%s body=%s", t.Spell.line(), t.Ext, c36Bodies[t.Body].Name)
+	}
 	var fs []string
 	for _, f := range t.Files {
 		fs = append(fs, f.Dir+"/"+c36Kinds[f.Kind].Name)
@@ -345,7 +394,50 @@ func (t c36Case) key() string {
 	if t.Walk {
 		inv = "walk"
 	}
+	if t.hetero() {
+		return fmt.Sprintf("hetero %s %s {%s} a=[%s] b=[%s]", t.Layout, inv, strings.Join(fs, " "), strings.Join(t.Flags, " "), strings.Join(t.FlagsB, " "))
+	}
 	return fmt.Sprintf("tree %s {%s} [%s]", inv, strings.Join(fs, " "), strings.Join(t.Flags, " "))
+}
+
+// c36HeteroPairs lists the ordered pairs (settings of a, settings of b) of a
+// tier. Quick: every flag against the empty set in both orders, and four
+// mixed pairs in both orders; thorough: all ordered pairs of distinct quick
+// flag sets.
+func c36HeteroPairs(quick bool) [][2][]string {
+	var out [][2][]string
+	seen := map[string]bool{}
+	add := func(a, b []string) {
+		k := strings.Join(a, ",") + "|" + strings.Join(b, ",")
+		if !seen[k] && strings.Join(a, ",") != strings.Join(b, ",") {
+			seen[k] = true
+			out = append(out, [2][]string{a, b})
+		}
+	}
+	// simplify/minify and language first: the settings kept outside the printer
+	for _, f := range []string{"s", "mn", "lnposix", "lnbash", "i2", "i0", "bn", "ci", "sr", "fn"} {
+		add([]string{f}, nil)
+		add(nil, []string{f})
+	}
+	for _, p := range [][2][]string{
+		{{"i2", "ci"}, {"bn", "sr"}},
+		{{"s", "lnposix"}, {"i2", "mn"}},
+		{{"lnposix"}, {"lnbash"}},
+		{{"i2"}, {"i0"}},
+	} {
+		add(p[0], p[1])
+		add(p[1], p[0])
+	}
+	if quick {
+		return out
+	}
+	sets := c36FlagSets(true)
+	for _, a := range sets {
+		for _, b := range sets {
+			add(a, b)
+		}
+	}
+	return out
 }
 
 // c36FlagSets lists the flag sets of a tier, each in a fixed flag order.
@@ -436,8 +528,42 @@ func c36(c *vc.Ctx) {
 				bad = "is not unformatted"
 			}
 		}
+		if k.Name == "bashism" && bad == "" {
+			if !oracle.get(i, []string{"lnposix"}, "flags").Err() || !oracle.get(i, []string{"lnposix"}, "ec").Err() || oracle.get(i, []string{"lnbash"}, "ec").Err() {
+				bad = "does not tell posix from bash"
+			}
+		}
 		if bad != "" {
 			die(fmt.Errorf("file kind %s %s: %+v", k.Name, bad, def.File))
+		}
+	}
+	// the shebang bodies must tell every two languages apart by status and
+	// bytes, and the generated spellings must be what the grammar says
+	{
+		sig := map[string]string{}
+		for _, l := range c36Langs {
+			for _, b := range c36Bodies {
+				r := c36Run(bin, tmp, tmp, []byte(b.Src), "-ln="+l)
+				sig[l] += fmt.Sprintf("%d %q|", r.Exit, r.Stdout)
+			}
+		}
+		for i, l := range c36Langs {
+			for _, m := range c36Langs[:i] {
+				if sig[l] == sig[m] {
+					die(fmt.Errorf("the shebang bodies do not tell %s from %s: %s", l, m, sig[l]))
+				}
+			}
+		}
+		for _, sc := range c36ShebangSpace(c.Quick()) {
+			sp := sc.Spell
+			valid := (sp.Path == "/bin/" || sp.Path == "/usr/bin/") && (sp.Env == "" || strings.Trim(sp.Env[3:], " \t") == "" && len(sp.Env) > 3) && c36ShellLang(sp.Shell) != ""
+			want := ""
+			if valid {
+				want = sp.Shell
+			}
+			if got := c36ShebangShell(sp.line() + c36Bodies[sc.Body].Src); got != want {
+				die(fmt.Errorf("spelling %q: built to name %q, the grammar reads %q", sp.line(), want, got))
+			}
 		}
 	}
 
@@ -449,15 +575,114 @@ func c36(c *vc.Ctx) {
 	for _, s := range sets {
 		setNames = append(setNames, "["+strings.Join(c36Args(s), " ")+"]")
 	}
-	c.Rule = fmt.Sprintf("file kinds %v; trees = all multisets of 1..%d kinds (listed in kind order, file i named f<i><ext>) x all placements in directories a/b with the first file in a; flag sets %s, each given once as command-line flags (next to a decoy .editorconfig with conflicting settings when non-empty) and once as the equivalent .editorconfig; each tree is passed once as explicit file arguments and once as its directories. Phase single: per (kind, flag set): `shfmt F f` = `shfmt F --filename f <f` (bytes, status) and flags = EditorConfig. Phase tree: -l lists exactly D = {f considered : formatted(f) != f}, -d holds one diff per member of D which applied to f gives formatted(f), status 1 iff D or a parse error, parse errors only on stderr; -w rewrites exactly D and leaves nothing else; -l afterwards prints nothing; all four agree between flags and EditorConfig. distinct = (D, parse-error set, skipped set) patterns per flag set and invocation",
-		kindNames, maxFiles, strings.Join(setNames, " "))
+	var pairNames []string
+	for _, p := range c36HeteroPairs(true) {
+		pairNames = append(pairNames, "("+strings.Join(c36Args(p[0]), " ")+" | "+strings.Join(c36Args(p[1]), " ")+")")
+	}
+	c.Rule = fmt.Sprintf("file kinds %v; flag sets %s. "+
+		"Phase shebang: file f / f.sh = shebang line + body, alone in a tree; lines generated from the documented grammar `#!` blanks /bin/|/usr/bin/ [env blanks] shell: blanks after `#!` = 0..%d spaces, a tab, space+tab (line lengths 9..46 bytes, on both sides of any fixed probe size); quick: (/bin/, no env) and (/usr/bin/, `env `) x shells %v and non-shells %v x line end \\n x body multi (body bats too for bash and bats), plus /usr/local/bin/, `env -S `, `envbash` neighbours; thorough: /bin/,/usr/bin/ x {no env, `env `, `env  `, `env\\t`} x all eight names x both bodies, and line ends ` -e\\n`, \\r\\n for <=1 blank. Bodies %v tell all five languages apart by status and bytes (verified at start). Judged: `shfmt f` = `shfmt --filename f <f` = `shfmt -ln=<language of the shebang's shell> --filename f <f` (bytes, status); `shfmt -l .` considers the extension-less file iff the grammar finds a shell. "+
+		"Phase hetero: directories a and b with DIFFERENT EditorConfig settings (ordered pairs; quick: %s; thorough: also all ordered pairs of distinct quick flag sets), laid out as sections [a/**] and [b/**] of one root file or as nested a/.editorconfig and b/.editorconfig, passed as explicit files and as directories; trees: {a/tab a/bashism b/tab b/bashism} (both settings-sensitive kinds under both settings in one run), thorough also every ordered pair of kinds (one file in a, one in b) under the quick pairs; every file must come out exactly as when formatted alone under the settings in force for it (-l, -d, -w, -l as in phase tree). "+
+		"Phase single: per (kind, flag set): `shfmt F f` = `shfmt F --filename f <f` (bytes, status) and flags = EditorConfig. "+
+		"Phase tree: all multisets of 1..%d kinds (listed in kind order, file i named f<i><ext>) x all placements in directories a/b with the first file in a, each flag set given once as command-line flags (next to a decoy .editorconfig with conflicting settings when non-empty) and once as the equivalent single-section .editorconfig, each tree passed once as explicit file arguments and once as its directories: -l lists exactly D = {f considered : formatted(f) != f}, -d holds one diff per member of D which applied to f gives formatted(f), status 1 iff D or a parse error, parse errors only on stderr; -w rewrites exactly D and leaves nothing else; -l afterwards prints nothing; all four agree between flags and EditorConfig. Order: shebang lines with <=3 blanks, hetero quick pairs, rest of the shebang sweep, single, rest of hetero, tree. distinct = (D, parse-error set, skipped set) patterns per settings and invocation; per shebang (line length, shell, extension, body, considered, error)",
+		kindNames, strings.Join(setNames, " "), c36MaxBlank, c36ShebangShells, c36NotShells, []string{c36Bodies[0].Name, c36Bodies[1].Name}, strings.Join(pairNames, " "), maxFiles)
 	c.Assumptions = []string{
-		"formatted(f) is what `shfmt <options> f` prints for the file alone in a directory",
+		"formatted(f) is what `shfmt <options> f` prints for the file alone in a directory (with the options as flags, or as a single-section .editorconfig)",
 		"when walking a directory shfmt considers files with a shell extension and extension-less files with a shell shebang (shfmt(1)); explicitly named files are always considered",
 		"files with a parse error are reported on stderr, make the exit status 1 and appear in no list or diff",
+		"a shell shebang is what shfmt(1)/fileutil.Shebang document: `#!`, optional blanks, /bin/ or /usr/bin/, optionally env and blanks, one of sh dash bash mksh bats zsh, then white space or the end; sh and dash mean -ln=posix",
+		"an EditorConfig section [a/**] of the root file and a [*] section of a/.editorconfig both apply to every file below a (EditorConfig specification)",
 	}
 
 	var caseSeq atomic.Int64
+
+	// Phase shebang: file "f<ext>" = shebang line + body, alone in a tree
+	// without settings.
+	//   F = shfmt f            S = shfmt --filename f <f
+	//   R = shfmt -ln=L --filename f <f   where L is the language of the shell
+	//       the documented shebang grammar finds (only when it finds one)
+	//   W = shfmt -l .         (extension-less files only)
+	// F = S = R in bytes and status; W lists f iff the grammar finds a shell
+	// and R succeeds with bytes other than the file's.
+	judgeShebang := func(t c36Case) *vc.Fail {
+		key := t.key()
+		content := t.Spell.line() + c36Bodies[t.Body].Src
+		class := c36ClassShebang(content)
+		fail := func(what, format string, args ...any) *vc.Fail {
+			return &vc.Fail{Key: key + " " + what, Class: class, Msg: key + ": " + fmt.Sprintf(format, args...)}
+		}
+		d := filepath.Join(tmp, fmt.Sprintf("c%d", caseSeq.Add(1)))
+		tree := filepath.Join(d, "tree")
+		tmpdir := filepath.Join(d, "tmp")
+		defer os.RemoveAll(d)
+		os.MkdirAll(tree, 0o755)
+		os.MkdirAll(tmpdir, 0o755)
+		name := "f" + t.Ext
+		if err := os.WriteFile(filepath.Join(tree, ".editorconfig"), []byte("root = true\n"), 0o644); err != nil {
+			panic(err)
+		}
+		if err := os.WriteFile(filepath.Join(tree, name), []byte(content), 0o644); err != nil {
+			panic(err)
+		}
+		shell := c36ShebangShell(content)
+		lang := c36ShellLang(shell)
+		show := func(r c36Result) string {
+			return fmt.Sprintf("status %d %q (%s)", r.Exit, r.Stdout, strings.TrimSpace(r.Stderr))
+		}
+		same := func(a, b c36Result) bool { return a.Stdout == b.Stdout && a.Exit == b.Exit }
+		F := c36Run(bin, tree, tmpdir, nil, name)
+		S := c36Run(bin, tree, tmpdir, []byte(content), "--filename", name)
+		for _, r := range []c36Result{F, S} {
+			if r.Exit != 0 && r.Stdout != "" {
+				return fail("output-and-error", "shfmt printed %q and failed with %q", r.Stdout, r.Stderr)
+			}
+			if r.Exit == 0 && r.Stderr != "" {
+				return fail("stderr", "shfmt succeeded but wrote %q to stderr", r.Stderr)
+			}
+		}
+		ref := S
+		if lang != "" {
+			R := c36Run(bin, tree, tmpdir, []byte(content), "-ln="+lang, "--filename", name)
+			ref = R
+			if !same(F, R) {
+				return fail("file-language", "the shebang names %s, but `shfmt %s` gives %s while the same bytes through stdin with -ln=%s give %s", shell, name, show(F), lang, show(R))
+			}
+			if !same(S, R) {
+				return fail("stdin-language", "the shebang names %s, but `shfmt --filename %s` on stdin gives %s while -ln=%s gives %s", shell, name, show(S), lang, show(R))
+			}
+		}
+		if !same(F, S) {
+			return fail("stdin", "`shfmt %s` gives %s, the same bytes through stdin with --filename give %s", name, show(F), show(S))
+		}
+		considered := "-"
+		if t.Ext == "" {
+			W := c36Run(bin, tree, tmpdir, nil, "-l", ".")
+			wantOut, wantExit, wantErr := "", 0, false
+			if lang != "" {
+				switch {
+				case ref.Exit != 0:
+					wantExit, wantErr = 1, true
+				case ref.Stdout != content:
+					wantOut, wantExit = name+"\n", 1
+				}
+			}
+			considered = fmt.Sprint(lang != "")
+			if W.Stdout != wantOut || W.Exit != wantExit || (W.Stderr != "") != wantErr {
+				return fail("walk", "`shfmt -l .` gives %s; the file has %s, formatting it gives %s, so the walk should print %q with status %d", show(W),
+					map[bool]string{true: "a " + shell + " shebang", false: "no shell shebang"}[lang != ""], show(ref), wantOut, wantExit)
+			}
+		}
+		c.Distinct(fmt.Sprintf("shebang len=%d shell=%s ext=%s body=%d walk=%s err=%v", len(t.Spell.line()), t.Spell.Shell, t.Ext, t.Body, considered, F.Exit != 0))
+		if lang != "" {
+			c.Count("shebang_cases_with_a_shell_shebang", 1)
+			if n := len(t.Spell.line()) - len(t.Spell.Term); n > 32 {
+				c.Count("shebang_cases_with_the_shell_name_ending_after_byte_32", 1)
+			}
+		} else {
+			c.Count("shebang_cases_without_a_shell_shebang", 1)
+		}
+		return nil
+	}
+
 	judge := func(t c36Case) *vc.Fail {
 		key := t.key()
 		fail := func(what, class, format string, args ...any) *vc.Fail {
@@ -489,7 +714,11 @@ func c36(c *vc.Ctx) {
 			return nil
 		}
 
-		// phase tree
+		if t.Phase == "shebang" {
+			return judgeShebang(t)
+		}
+
+		// phases tree and hetero
 		d := filepath.Join(tmp, fmt.Sprintf("c%d", caseSeq.Add(1)))
 		tree := filepath.Join(d, "tree")
 		tmpdir := filepath.Join(d, "tmp")
@@ -512,7 +741,14 @@ func c36(c *vc.Ctx) {
 			list, diff, write, relist c36Result
 		}
 		var results [2]modeResult
-		for mi, mode := range []string{"flags", "ec"} {
+		modes := []string{"flags", "ec"}
+		nconf := 1 // .editorconfig files of the tree
+		if t.hetero() {
+			// no single flag line is equivalent to per-directory settings
+			modes = []string{"ec"}
+			nconf = len(t.editorConfigs())
+		}
+		for mi, mode := range modes {
 			os.RemoveAll(d)
 			os.MkdirAll(tmpdir, 0o755)
 			for i, f := range t.Files {
@@ -521,8 +757,14 @@ func c36(c *vc.Ctx) {
 					panic(err)
 				}
 			}
-			if err := os.WriteFile(filepath.Join(tree, ".editorconfig"), []byte(c36EditorConfig(t.Flags, mode)), 0o644); err != nil {
-				panic(err)
+			confs := map[string]string{".editorconfig": c36EditorConfig(t.Flags, mode)}
+			if t.hetero() {
+				confs = t.editorConfigs()
+			}
+			for p, text := range confs {
+				if err := os.WriteFile(filepath.Join(tree, p), []byte(text), 0o644); err != nil {
+					panic(err)
+				}
 			}
 			var fargs []string
 			if mode == "flags" {
@@ -541,7 +783,8 @@ func c36(c *vc.Ctx) {
 					skipped = append(skipped, paths[i])
 					continue
 				}
-				o := oracle.get(f.Kind, t.Flags, mode)
+				// the file formatted alone, under the settings in force for it
+				o := oracle.get(f.Kind, t.setOf(f), mode)
 				switch {
 				case o.Err():
 					wantErr = append(wantErr, paths[i])
@@ -660,8 +903,8 @@ func c36(c *vc.Ctx) {
 				}
 				return nil
 			})
-			if n != len(paths)+1 {
-				return fail(mode+" write-leftover", "", "%s: after shfmt %v the tree and $TMPDIR hold %d files, want %d", mode, cmdline("-w"), n, len(paths)+1)
+			if n != len(paths)+nconf {
+				return fail(mode+" write-leftover", "", "%s: after shfmt %v the tree and $TMPDIR hold %d files, want %d", mode, cmdline("-w"), n, len(paths)+nconf)
 			}
 
 			// -l again
@@ -681,11 +924,17 @@ func c36(c *vc.Ctx) {
 				if t.Walk {
 					inv = "walk"
 				}
-				c.Distinct(fmt.Sprintf("%s %v D=%v E=%v skip=%v", inv, t.Flags, c36KindsOf(t, want), c36KindsOf(t, wantErr), c36KindsOf(t, skipped)))
+				if t.hetero() {
+					inv = "hetero " + t.Layout + " " + inv + " b=" + strings.Join(t.FlagsB, ",")
+				}
+				c.Distinct(fmt.Sprintf("%s %v D=%v E=%v skip=%v", inv, t.Flags, c36PathsOf(t, want), c36PathsOf(t, wantErr), c36PathsOf(t, skipped)))
 				if len(t.Files) == maxFiles && len(want) > 0 && len(wantErr) > 0 && len(t.Flags) > 0 {
 					c.Sample(map[string]any{"case": t.key(), "listed": want, "parse_errors": wantErr, "not_considered": skipped, "diff_bytes": len(results[0].diff.Stdout)})
 				}
 			}
+		}
+		if t.hetero() {
+			return nil
 		}
 		// flags = EditorConfig: identical stdout and status in all four steps
 		a, b := results[0], results[1]
@@ -700,10 +949,63 @@ func c36(c *vc.Ctx) {
 		return nil
 	}
 
+	kindIndex := map[string]int{}
+	for i, k := range c36Kinds {
+		kindIndex[k.Name] = i
+	}
+	shebangCases := c36ShebangSpace(c.Quick())
+	heteroQuick := c36HeteroPairs(true)
+	heteroAll := c36HeteroPairs(c.Quick())
+	c.Count("shebang_cases", len(shebangCases))
+	c.Count("hetero_setting_pairs", len(heteroAll))
 	complete := vc.Run(c, func(emit func(c36Case)) {
+		emitShebang := func(keep func(c36ShebangCase) bool) {
+			for _, sc := range shebangCases {
+				if keep(sc) {
+					sp := sc.Spell
+					emit(c36Case{Phase: "shebang", Spell: &sp, Ext: sc.Ext, Body: sc.Body})
+				}
+			}
+		}
+		emitHetero := func(files []c36File, pairs [][2][]string) {
+			for _, p := range pairs {
+				for _, layout := range []string{"sections", "nested"} {
+					for _, walk := range []bool{false, true} {
+						emit(c36Case{Phase: "hetero", Files: files, Flags: p[0], FlagsB: p[1], Layout: layout, Walk: walk})
+					}
+				}
+			}
+		}
+		// The new dimensions first, smallest part first: every case costs
+		// several processes and the tiers usually end at the time budget.
+		// 1. shebang spellings with at most 3 blanks after "#!" (lines of 9..25 bytes)
+		short := func(sc c36ShebangCase) bool { return len(sc.Spell.Blank) <= 3 }
+		emitShebang(short)
+		// 2. the four-file tree with both settings-sensitive kinds in both
+		// directories x the quick pairs of per-directory settings
+		tab, bashism := kindIndex["tab"], kindIndex["bashism"]
+		four := []c36File{{tab, "a"}, {bashism, "a"}, {tab, "b"}, {bashism, "b"}}
+		emitHetero(four, heteroQuick)
+		// 3. the rest of the shebang sweep
+		emitShebang(func(sc c36ShebangCase) bool { return !short(sc) })
 		for _, set := range sets {
 			for k := range c36Kinds {
 				emit(c36Case{Phase: "single", Kind: k, Flags: set})
+			}
+		}
+		if !c.Quick() {
+			// all ordered pairs of settings on the four-file tree (the quick
+			// pairs are not repeated), and every ordered pair of kinds as a
+			// two-file tree under the quick pairs
+			var rest [][2][]string
+			for _, p := range heteroAll[len(heteroQuick):] {
+				rest = append(rest, p)
+			}
+			emitHetero(four, rest)
+			for ka := range c36Kinds {
+				for kb := range c36Kinds {
+					emitHetero([]c36File{{ka, "a"}, {kb, "b"}}, heteroQuick)
+				}
 			}
 		}
 		// multisets of kinds in non-decreasing order x directory placements
@@ -745,6 +1047,25 @@ func c36(c *vc.Ctx) {
 	c.Count("flag_sets", len(sets))
 	os.RemoveAll(tmp)
 	c.Finish(complete)
+}
+
+// c36PathsOf is c36KindsOf, with the directory for a hetero tree (where the
+// same kind in a and in b is under different settings).
+func c36PathsOf(t c36Case, ps []string) []string {
+	if !t.hetero() {
+		return c36KindsOf(t, ps)
+	}
+	var out []string
+	paths := t.paths()
+	for _, p := range ps {
+		for i, q := range paths {
+			if p == q {
+				out = append(out, t.Files[i].Dir+"/"+c36Kinds[t.Files[i].Kind].Name)
+			}
+		}
+	}
+	sort.Strings(out)
+	return out
 }
 
 func c36KindsOf(t c36Case, ps []string) []string {
